@@ -193,7 +193,7 @@ func genScalarState(r *vf.Rand) [5]uint64 {
 		}
 	case 1: // extreme words, l4 = 0
 		for i := 0; i < 4; i++ {
-			s[i] = k1Words[r.Intn(3)]
+			s[i] = k1Words[c18WordIdx(r)]
 		}
 	case 2: // l4 = 1 with a small low part (boundary of the relational invariant)
 		low := new(big.Int).Sub(new(big.Int).Lsh(big.NewInt(1), 141), big.NewInt(int64(1+r.Intn(3))))
